@@ -1,6 +1,6 @@
 (* C12 — JSON encoding of expressions round-trips.  (leaf level and totality; see DESIGN 6/C12) *)
 Require Import Parser Render Decode Shape.
-Require Import RenderTotal RenderMarshal RenderNum DecodeLeaf.
+Require Import RenderTotal RenderMarshal RenderNum DecodeLeaf TablesTie.
 From Coq Require Import List String Ascii ZArith.
 
 (* MarshalJSON returns (bytes or an error) on every tree whatsoever *)
@@ -22,7 +22,19 @@ Theorem C12_string_leaf_roundtrip : forall o : oracle,
   forall raw s : string, plain_text s = true -> unmarshal_literal o (JStr (String """"%char raw) s) = DOk (lit (VStr s)).
 Proof. exact leaf_string_roundtrip. Qed.
 
+(* operator names: toString and fromString (generated from operator.go) are mutually inverse on the 19 operators, and the
+   decoder's lookup is fromString *)
+Theorem C12_operator_names_roundtrip : forall op s, assoc_op op to_string = Some s -> assoc_str s from_string = Some op.
+Proof. exact from_to_string_inverse. Qed.
+Theorem C12_operator_names_total : forall op, op <> Undefined -> assoc_op op to_string = Some (op_string op).
+Proof. exact to_string_tie. Qed.
+Theorem C12_decoder_uses_from_string : forall s, op_of_string s = match assoc_str s from_string with Some op => op | None => Undefined end.
+Proof. exact op_of_string_tie. Qed.
+
 Print Assumptions C12_encode_returns.
+Print Assumptions C12_operator_names_roundtrip.
+Print Assumptions C12_operator_names_total.
+Print Assumptions C12_decoder_uses_from_string.
 Print Assumptions C12_atoi_itoa.
 Print Assumptions C12_int_leaf_roundtrip.
 Print Assumptions C12_string_leaf_roundtrip.
